@@ -35,8 +35,17 @@ class _CounterForm(ast.NodeTransformer):
             return ast.dump(x).replace('ctx=Store()', 'ctx=Load()')
         return strip(a) == strip(b)
 
-    def visit_Assign(self, node):
+    def visit_AnnAssign(self, node):
+        # `x: T = e` is read as `x = e` (a bare declaration `x: T` stays as it is)
         self.generic_visit(node)
+        if node.value is None:
+            return node
+        return self.visit_Assign(ast.copy_location(
+            ast.Assign(targets=[node.target], value=node.value), node), visited=True)
+
+    def visit_Assign(self, node, visited=False):
+        if not visited:
+            self.generic_visit(node)
         if len(node.targets) != 1 or not self._plain(node.targets[0]) or \
                 not isinstance(node.value, ast.BinOp) or \
                 not isinstance(node.value.op, (ast.Add, ast.Sub)):
